@@ -8,7 +8,7 @@ ROOT = os.path.dirname(os.path.dirname(os.path.abspath(__file__)))
 E1 = 'vf/engine/explore.py'
 CHECKS = {}
 NOT_YET = {}
-HOLD = {'C05', 'C11'}  # built but not yet passing on the unchanged tree / not yet validated: not claimed
+HOLD = set()  # built but not yet passing on the unchanged tree / not yet validated: not claimed
 
 
 def check(pid, category, text, note, technique, engine, design_ref):
